@@ -100,7 +100,9 @@ var portCursor atomic.Int64
 func FreePorts(n int) ([]int, error) {
 	idx := 0
 	fmt.Sscanf(os.Getenv("VERIF_CASE_IDX"), "%d", &idx)
-	base := 21000 + (idx%600)*64
+	// below the kernel's ephemeral range (32768..60999): an outgoing RPC connection
+	// of any worker must not be able to occupy a port a node wants to listen on
+	base := 10048 + (idx%340)*64
 	ports := make([]int, 0, n)
 	for tries := 0; len(ports) < n && tries < 64; tries++ {
 		p := base + int(portCursor.Add(1)-1)%64
